@@ -18,7 +18,7 @@ from props import c11
 from props import c10_loops
 
 ID = "C10"
-LEAN_MODULES = ["EzdxfVerif.Props.C10"]
+LEAN_MODULES = ["EzdxfVerif.Props.C10", "EzdxfVerif.Props.C10Flat"]  # C10Flat imports Props/C14 read-only (twins_agree for the flattening loops)
 GEN = ["VectorPy", "VectorPyx", "Matrix44Py", "Matrix44Pyx", "TwinsPy", "TwinsPyx", "TwinLoopsPy", "TwinLoopsPyx"]
 DRIVER_DEPS = ["EzdxfVerif.Model.Rat3", "EzdxfVerif.Model.TwinLoops", "Drivers.Proto"] + [f"EzdxfVerif.Gen.{g}" for g in GEN]
 
@@ -97,6 +97,8 @@ def regenerate(ctx):
     from translate.py2lean import Program, translate, lean_file
 
     c11.regenerate(ctx)  # Gen/Vector*.lean, Gen/Matrix44*.lean (and Ucs*.lean): identical text, written once
+    from props import c14
+    c14.regenerate(ctx)  # Gen/FlattenKernels.lean: Props/C10Flat.lean instantiates C14's twins_agree (read-only import) with C10's translated kernels
     for twin, suffix in (("py", "Py"), ("pyx", "Pyx")):
         src = SRC[twin]
         prog = Program(ctx.src)
@@ -148,6 +150,11 @@ RULE = (
     "oracle: every public name of every module of the package ezdxf.acc is enumerated from the LIVE modules (pkgutil + dir()); a "
     "module without registered twin, a name without twin, and a name with neither theorem nor differential stream is reported "
     "(evidence: coverage.api_inventory). "
+    "GROWTH ROUND 2: further cuts + skeletons: earcut (ear bounding box, blocked-ear tests, hole sort key, signed_area; identity of the other functions after "
+    "justified rewrites), banded LU (lu_decompose / solve_vector_banded_matrix, pivoting and singular matrices in X4), the whole of A2.3 "
+    "(basis_funcs_derivatives) and Evaluator.derivative on top of it, cubic_bezier_arc_parameters (ceil/tan/cos/sin/pi as parameters; X4 feeds libm's values "
+    "at the model's exact angles), is_point_in_polygon_2d (any polygon), approximate(n)/approximated_length(n), flattening via C14.twins_agree "
+    "(Props/C10Flat.lean, second Lean module). "
     "BROKEN PINNED TEXT / CUT (follow-up): regenerate records the diff as a broken obligation naming the function, and the oracle then SEARCHES the "
     "real twins with the boosted plans of that function (SEARCH_PLANS); a concrete failing input becomes the replay, only otherwise the line ends "
     "with no-failing-input-found. Always-on targeted plans: diff_earcut_holes (several holes with tied sort keys: equal leftmost x in every y "
@@ -161,8 +168,12 @@ TRUSTED_BASE = [
     "loops: Model/TwinLoops.lean is a hand written reading of the pinned loop skeletons (iteration order, which array cell a kernel "
     "reads/writes, list building); tied by the pinned-text comparison on every run and by correspondence X3/X4 against both twins",
     "bisect.bisect_right: the C accelerator _bisect is taken to be Lib/bisect.py (whose loop is the one translated)",
-    "banded LU and the loops of A2.3 after the first: equal source text is taken to mean equal behaviour of Python floats/numpy "
-    "float64 cells and C doubles (IEEE binary64 in both; the ZeroDivisionError difference of numpy scalars was defect D14, fixed)",
+    "earcut ring surgery: equal source text (after the cuts and justified rewrites) is taken to mean equal behaviour; banded LU and A2.3 are modelled "
+    "now (pinned skeletons + X4), their text identity checks stay as a second tie (numpy float64 cells vs C doubles: IEEE binary64 in both; the "
+    "ZeroDivisionError difference of numpy scalars was defect D14, fixed)",
+    "Props/C10Flat.lean imports Props/C14 and Model/Flatten read-only: C14's bezierFlat is the loop model of Bezier flattening (tied by C14's own "
+    "correspondence); Gen/FlattenKernels.lean is regenerated by c14.regenerate inside C10's regenerate step",
+    "py2lean_c10 wraps (does not edit) py2lean: n-ary min/max as the left fold of the binary form; parenthesises `.ok decide (p)` leaves",
 ]
 ASSUMPTIONS = [
     "finite doubles only (NaN/inf arguments are not part of the value classes)",
@@ -174,16 +185,20 @@ ASSUMPTIONS = [
 OPEN = [
     "object identity / aliasing is NOT a statement of the twin_<f> theorems: they are value equalities over immutable rational models (e.g. "
     "Matrix44.chain translated for 1, 2, 3 arguments proves the value only; `chain(m) is m` cannot be expressed). It is covered by the aliasing "
-    "probe of the differential oracle (diff_aliasing: result identical to / sharing state with an argument or the receiver, in both directions, "
-    "must agree between the twins; documented in-place methods listed in IN_PLACE), which is a test, not a proof",
-    "earcut (mapbox_earcut twins): no Lean twin theorem here; tie = 21 of the 29 functions (all ring surgery loops) are the SAME text in both "
-    "twins after the token rewrites EARCUT_TOKENS, the diffs of the other 8 are pinned (c10_loops.earcut_identity, checked every run); the "
-    "arithmetic leaf kernels of both twins are proved equal in C19 (cython_twin_kernels_agree); is_ear/is_ear_hashed/find_hole_bridge/"
-    "eliminate_holes/earcut differ in text and are differential only",
-    "Basis.basis_funcs_derivatives after its first loop, banded LU: no Lean model; tie = equal source text of the two twins, checked every run",
-    "Evaluator.derivative: proved given the same derivative table from A2.3 (twin_evalDerivative takes it as a parameter)",
-    "Bezier flattening / approximated_length, cubic_bezier_from_arc/_ellipse, is_point_in_polygon_2d, arc_angle_span_*, mercator, perspective "
-    "matrices, rotate/angle (atan2/acos), argument coercion, float rounding: differential only",
+    "probe of the differential oracle (diff_aliasing), which is a test, not a proof",
+    "earcut: `signed_area` is modelled (twin_signedArea), the bodies that differ in text (ear bounding box min/max nesting, blocked-ear tests of "
+    "is_ear / is_ear_hashed, hole sort key) are kernels proved equal; after these cuts and five rewrites that are each justified by a mechanical check "
+    "28 of the 29 functions are the same text (for `earcut` itself: early return for an empty exterior - linked_list([]) is executed -, setup block moved across "
+    "literal initialisations, `if holes` vs `len(holes) > 0`); no Lean model of the ring surgery (C19 has one for the Python twin): equal text is taken to mean equal behaviour",
+    "banded LU, A2.3, cubic_bezier_arc_parameters, is_point_in_polygon_2d, approximate/approximated_length: proved through hand written loop skeletons "
+    "(Model/TwinLoops.lean) that are tied by pinned skeleton text + correspondence X3/X4, not by a translated loop",
+    "flattening (Props/C10Flat.lean): the loop structure is C14's model (bezierFlat/stackSub/recSub, tied to the source by C14); C10 contributes the "
+    "translated point / distance / mid-parameter arithmetic of both twins and instantiates C14.twins_agree; the end-of-curve snapping tolerances are C14's "
+    "decimal constants (1e-9, 0 / 1e-9, 1e-12), the translated tests use the exact doubles; the result is 'same vertices or RecursionError' for segments < 10^9",
+    "Evaluator.derivative: twin_evalDerivative_closed has no parameter left (math.factorial binomials vs the FACTORIAL table) for derivative orders n <= 18, the table range",
+    "cubic_bezier_from_arc: twin_fromArc assumes math.radians(x) = x * (pi/180) (hypothesis) and has no correspondence stream of its own (pinned skeleton; "
+    "its parts arc_angle_span_deg and cubic_bezier_arc_parameters are corresponded)",
+    "cubic_bezier_from_ellipse, mercator functions, perspective matrices, rotate/angle (atan2/acos), argument coercion, float rounding: differential only",
 ]
 
 
@@ -1415,13 +1430,23 @@ LOOP_THEOREMS = {"Basis.find_span": "twin_findSpan", "Basis.basis_funcs": "twin_
                  "Basis.basis_vector": "twin_basisVector", "Evaluator.point": "twin_evalPoint", "Evaluator.points": "twin_evalPoint",
                  "_LineTypeRenderer.line_segment": "twin_lineSegment", "construct.has_clockwise_orientation": "twin_clockwise",
                  "np_support.has_clockwise_orientation": "twin_clockwiseNp",
-                 "Evaluator.derivative": "twin_edSub", "Evaluator.derivatives": "twin_edSub"}  # derivative: loop bodies only
+                 "Evaluator.derivative": "twin_evalDerivative_closed", "Evaluator.derivatives": "twin_evalDerivative_closed",
+                 "Basis.basis_funcs_derivatives": "twin_basisFuncsDerivatives", "np_support.lu_decompose": "twin_luDecompose",
+                 "np_support.solve_vector_banded_matrix": "twin_svSolve", "construct.is_point_in_polygon_2d": "twin_pointInPolygon",
+                 "bezier4p.cubic_bezier_arc_parameters": "twin_arcParameters",
+                 "bezier4p.cubic_bezier_from_arc": "twin_fromArc",
+                 "construct.arc_angle_span_deg": "twin_spanDeg", "construct.arc_angle_span_rad": "twin_spanRad",
+                 # Props/C10Flat.lean
+                 "Bezier4P.flattening": "twin_flattening4", "Bezier3P.flattening": "twin_flattening3",
+                 "Bezier4P.approximated_length": "twin_approximatedLength", "Bezier3P.approximated_length": "twin_approximatedLength",
+                 "Bezier4P.approximate": "twin_approximate", "Bezier3P.approximate": "twin_approximate"}
 
 
 def theorem_cover() -> dict:
     """API name ('Class.method' / 'module.function') -> name of a theorem of Props/C10.lean about a kernel translated from it"""
     import re
     text = open(os.path.join(os.path.dirname(os.path.abspath(__file__)), "..", "..", "lean", "EzdxfVerif", "Props", "C10.lean")).read()
+    text += open(os.path.join(os.path.dirname(os.path.abspath(__file__)), "..", "..", "lean", "EzdxfVerif", "Props", "C10Flat.lean")).read()
     thms = set(re.findall(r"^theorem\s+(twin_[A-Za-z0-9_]+)", text, flags=re.M))
     find = lambda lean: next((t for t in sorted(thms) if t == "twin_" + lean or t.startswith("twin_" + lean + "_")), None)
     cover = {}
@@ -1718,6 +1743,117 @@ def diff_aliasing(d: Diff, n: int):
             d.note_fail(f"uncovered/alias/Matrix44.{nm}", f"public name Matrix44.{nm} has no aliasing probe and is not listed as returning an immutable value (new method?)")
 
 
+
+# ---------------------------------------------------------------------------------------------- attribute sweep, tolerance bands
+def attr_sweep(d: Diff, cls: str, spec):
+    """every public NON-callable attribute / property that both twin classes have, read from a freshly constructed object of both twins"""
+    names = sorted(n for n in set(dir(d.py.classes[cls])) & set(dir(d.cx.classes[cls]))
+                   if not n.startswith("_") and not callable(getattr(d.py.classes[cls], n, None)) and not callable(getattr(d.cx.classes[cls], n, None)))
+
+    def fn(im, obj):
+        out = []
+        for n in names:
+            try:
+                out.append((n, getattr(obj, n)))
+            except Exception as e:  # noqa
+                out.append((n, "raises " + type(e).__name__))
+        return out
+
+    d.call(f"{cls}.attributes", [spec], fn, ulp=ULP, cover=f"{cls}.attributes")
+    for n in names:
+        d.covered.add(f"{cls}.{n}")
+
+
+def diff_attributes(d: Diff, n: int):
+    """objects of every twin class built from value classes that a constructor could normalise away: weights all 1.0 / all equal / a single
+    non-one weight / ints, knots given as ints, matrices that are exactly the identity, curves with equal control points, null vectors"""
+    g, r = d.gen, d.rng
+    for _ in range(n):
+        order = r.choice([2, 3, 4, 4])
+        count = r.randint(order, order + 4)
+        knots = _knots(r, order, count, r.choice(["clamped", "uniform", "shifted"]))
+        if r.random() < 0.3:
+            knots = [float(int(k)) for k in sorted(knots)]
+        wk = r.choice(["ones", "ones", "ones-int", "equal", "one-off", "random", "none", "zeros"])
+        weights = {"ones": [1.0] * count, "ones-int": [1] * count, "equal": [r.choice([2.0, 0.5])] * count, "none": None, "zeros": [0.0] * count,
+                   "one-off": [1.0] * (count - 1) + [r.choice([2.0, 1.0000000001, 0.0])], "random": [r.choice([1.0, 0.5, 2.0]) for _ in range(count)]}[wk]
+        basis = ("basis", knots, order, count, weights)
+        attr_sweep(d, "Basis", basis)
+        lo, hi = knots[order - 1], knots[count]
+        u = lo + (hi - lo) * r.choice([0.0, 0.25, 0.5, 1.0, r.random()])
+        d.call(f"Basis.basis_funcs/weights-{wk}", [basis, R(u)], lambda im, b, t: b.basis_funcs(b.find_span(t), t), ulp=16, cover="Basis.basis_funcs")
+        attr_sweep(d, "Vec3", ("V3", g.comps(3)))
+        attr_sweep(d, "Vec2", ("V2", g.comps(2)))
+        attr_sweep(d, "Matrix44", r.choice([g.matrix(), ("M", (1.0, 0.0, 0.0, 0.0, 0.0, 1.0, 0.0, 0.0, 0.0, 0.0, 1.0, 0.0, 0.0, 0.0, 0.0, 1.0))]))
+        pts = [("V3", tuple(float(g.g.dy(0)) for _ in range(3))) for _ in range(4)]
+        if r.random() < 0.3:
+            pts = [pts[0]] * 4
+        attr_sweep(d, "Bezier4P", ("B4", pts))
+        attr_sweep(d, "Bezier3P", ("B3", pts[:3]))
+        attr_sweep(d, "_LineTypeRenderer", ("ltr", r.choice([[], [1.0], [1.0, 0.5], [0.0, 0.0], [1.0, 1.0, 1.0]])))
+
+
+def diff_tolerance_bands(d: Diff, n: int):
+    """every predicate with a tolerance argument (or a fixed tolerance) is called with inputs whose distance from the decision boundary is
+    k * tol for k in 0, 1/4, 1/2, 0.99, 1, 1.01, 2, 4 - on both sides, along both axes, on edges, at vertices and on the prolongation of edges"""
+    g, r = d.gen, d.rng
+    K = [0.0, 0.25, 0.5, 0.99, 1.0, 1.01, 2.0, 4.0, -0.25, -0.5, -0.99, -1.0, -1.01, -2.0]
+    for _ in range(n):
+        tol = r.choice([1e-10, 1e-10, 1e-6, 1e-12, 0.5, 1e-3])
+        k1, k2 = r.choice(K), r.choice(K)
+        # --- is_point_in_polygon_2d: axis parallel and sloped edges, points near edges / vertices / prolongations
+        s = r.choice([1.0, 2.0, 10.0, 0.5])
+        poly = r.choice([[(0.0, 0.0), (s, 0.0), (s, s), (0.0, s)], [(0.0, 0.0), (2 * s, s), (s, 3 * s), (-s, s)], [(0.0, 0.0), (s, 0.0), (s, s), (0.0, s), (0.0, 0.0)],
+                         [(s, s), (0.0, s), (0.0, 0.0), (s, 0.0)]])
+        i = r.randrange(len(poly))
+        (x1, y1), (x2, y2) = poly[i], poly[(i + 1) % len(poly)]
+        ln = math.hypot(x2 - x1, y2 - y1) or 1.0
+        tx, ty = (x2 - x1) / ln, (y2 - y1) / ln
+        along = r.choice([0.5 * ln, 0.0, ln, -k2 * tol, ln + k2 * tol, 0.25 * ln])
+        pt = (x1 + tx * along - ty * k1 * tol, y1 + ty * along + tx * k1 * tol)
+        d.call("construct.is_point_in_polygon_2d/band", [("V2", pt), ("seq", [("V2", p) for p in poly]), R(tol)],
+               lambda im, p, vs, t: im.construct.is_point_in_polygon_2d(p, vs, abs_tol=t), cover="construct.is_point_in_polygon_2d")
+        if tol == 1e-10:
+            d.call("construct.is_point_in_polygon_2d/band-default", [("V2", pt), ("seq", [("V2", p) for p in poly])],
+                   lambda im, p, vs: im.construct.is_point_in_polygon_2d(p, vs), cover="construct.is_point_in_polygon_2d")
+        # --- intersection_line_line_2d: second line ends k*tol before / after the first line; nearly parallel with |den| ~ k*tol
+        a, b = ("V2", (0.0, 0.0)), ("V2", (s, 0.0))
+        c = ("V2", (s * r.choice([0.0, 0.5, 1.0]) + k2 * tol, k1 * tol))
+        e = ("V2", (c[1][0] + r.choice([0.0, 0.3]), s))
+        d.call("construct.intersection_line_line_2d/band", [a, b, c, e, R(r.random() < 0.5), R(tol)],
+               lambda im, p, q, u_, v_, virt, t: im.construct.intersection_line_line_2d((p, q), (u_, v_), virtual=virt, abs_tol=t), cover="construct.intersection_line_line_2d")
+        e2 = ("V2", (2.0 * s, k1 * tol / s))  # direction almost parallel to the x axis: denominator = k1 * tol * (something of size 1)
+        d.call("construct.intersection_line_line_2d/band-parallel", [a, b, ("V2", (0.0, 1.0)), ("V2", (e2[1][0], 1.0 + e2[1][1])), R(True), R(tol)],
+               lambda im, p, q, u_, v_, virt, t: im.construct.intersection_line_line_2d((p, q), (u_, v_), virtual=virt, abs_tol=t), cover="construct.intersection_line_line_2d")
+        # --- intersection_ray_ray_3d: skew rays with gap k * tol
+        L = r.choice([1.0, 100.0])
+        d.call("construct.intersection_ray_ray_3d/band", [("V3", (L, 0.0, 0.0)), ("V3", (L, 1.0, 0.0)), ("V3", (L + k1 * tol, 0.0, 1.0)), ("V3", (L + k1 * tol, 0.0, 2.0)), R(tol)],
+               lambda im, p, q, u_, v_, t: im.construct.intersection_ray_ray_3d((p, q), (u_, v_), abs_tol=t), ulp=1 << 16, cover="construct.intersection_ray_ray_3d")
+        # --- isclose / is_parallel / is_null / bool of vectors: component differences k * tol (absolute band) and k * rel * magnitude (relative band)
+        base = r.choice([(0.0, 0.0, 0.0), (1.0, 2.0, 3.0), (1e6, -1e6, 0.5), (1e-6, 0.0, 0.0)])
+        ax = r.randrange(3)
+        rel = r.choice([1e-9, 1e-6, 0.0])
+        delta = k1 * tol if r.random() < 0.5 else k1 * rel * max(abs(t) for t in base)
+        other = tuple(t + (delta if j == ax else 0.0) for j, t in enumerate(base))
+        for cls, dim in (("Vec3", 3), ("Vec2", 2)):
+            if ax >= dim:
+                continue
+            d.call(f"{cls}.isclose/band", [(cls[0] + cls[-1], base[:dim]), (cls[0] + cls[-1], other[:dim]), R(rel), R(tol)],
+                   lambda im, x, y, rt, at: x.isclose(y, rel_tol=rt, abs_tol=at), cover=f"{cls}.isclose")
+            nul = tuple((k1 * 1e-12 if j == ax else r.choice([0.0, 5e-13])) for j in range(dim))
+            d.call(f"{cls}.is_null/band", [(cls[0] + cls[-1], nul)], lambda im, x: (x.is_null, bool(x)), cover=f"{cls}.is_null")
+        d.call("Vec3.is_parallel/band", [("V3", (1.0, 0.0, 0.0)), ("V3", (r.choice([2.0, -3.0]), k1 * tol, 0.0)), R(rel), R(tol)],
+               lambda im, x, y, rt, at: x.is_parallel(y, rel_tol=rt, abs_tol=at), cover="Vec3.is_parallel")
+        # --- has_clockwise_orientation: closing vertex within the isclose band of the first vertex
+        cl = [("V2", (0.0, 0.0)), ("V2", (s, 0.0)), ("V2", (s, s)), ("V2", (k1 * 1e-12, k2 * 1e-12))]
+        d.call("construct.has_clockwise_orientation/band", [("seq", cl)], lambda im, vs: im.construct.has_clockwise_orientation(vs), cover="construct.has_clockwise_orientation")
+        # --- Evaluator.point: u within k * 1e-12 / k * 1e-9 * max_t of max_t (the snapping band)
+        mt = r.choice([1.0, 4.0, 1e-6, 1e3])
+        kn = [0.0] * 4 + [mt] * 4
+        cps = [("V3", (0.0, 0.0, 0.0)), ("V3", (1.0, 2.0, 0.0)), ("V3", (3.0, -1.0, 0.0)), ("V3", (5.0, 5.0, 5.0))]
+        uu = mt - abs(k1) * r.choice([1e-12, 1e-9 * mt])
+        d.call("Evaluator.point/band", [("eval", ("basis", kn, 4, 4, None), cps), R(uu)], lambda im, e_, t: e_.point(t), ulp=64, cover="Evaluator.point")
+
 # pinned function (suspect name of c10_loops.regenerate_loops) -> plans that search the real twins for a failing input, with their quick sizes
 SEARCH_PLANS = {
     "mapbox_earcut": [("diff_earcut_holes", 400), ("diff_earcut", 400)],
@@ -1755,6 +1891,8 @@ def run_diff(seed: int, quick: bool, suspects=()) -> Diff:
     diff_earcut_holes(d, 60 * k)
     diff_linetypes_far(d, 100 * k)
     diff_aliasing(d, 25 * k)
+    diff_attributes(d, 40 * k)
+    diff_tolerance_bands(d, 150 * k)
     d.searched = search_suspects(d, list(suspects))
     api_surface(d)
     d.inventory = inventory(d)
